@@ -32,3 +32,17 @@ package dao
 //@   ensures record-found: ghost.row_found && result1 == nil ==> result0 != nil
 //@   ensures failure-surfaces: ghost.step_failed ==> result1 != nil && result0 == nil
 //@   ensures statement-released: ghost.stmts_open == old(ghost.stmts_open)
+
+// The status transitions are compare-and-set updates (... WHERE xid = ? AND branch_id = ? AND status = ?):
+// an update that changed no row means the record was not in the expected status - another delivery got
+// there first - and must fail, or confirm and cancel can both be applied.
+//@ iface (database/sql.Result).RowsAffected
+//@   ensures true
+//@ func (*TccFenceStoreDatabaseMapper).UpdateTCCFenceDO
+//@   prop C06
+//@   requires t != nil && tx != nil && !ghost.step_failed
+//@   modifies ghost.stmts_open, ghost.step_failed, ghost.execs
+//@   ensures a-transition-that-changed-no-row-fails: called("RowsAffected#1") && callres("RowsAffected#1", 1) == nil && callres("RowsAffected#1", 0) == 0 ==> result != nil
+//@   ensures failure-surfaces: ghost.step_failed ==> result != nil
+//@   ensures statement-released: ghost.stmts_open == old(ghost.stmts_open)
+//@   may_panic
